@@ -51,6 +51,7 @@ pub struct Probes {
     pub recharge_limit_tight: u64,
     pub time_dependent_legs: u64,
     pub time_dependent_tolerance_exhausted: u64,
+    pub reported_starts_judged: u64,
 }
 
 impl Probes {
@@ -60,7 +61,7 @@ impl Probes {
             tours, activities, multi_activity_stops, waiting_acts, tw_tight, cap_tight, dist_limit_tight,
             dur_limit_tight, size_limit_tight, reload_acts, break_acts, tours_too_ambiguous, multi_jobs_assigned, unassigned,
             skipped_time_replay, tags_checked, order_checked, groups_checked, compat_checked, skills_checked,
-            unreachable_checked, relations_checked, resources_checked, shift_latest_tight, open_tours, clustered_acts, recharge_acts, recharge_limit_tight, time_dependent_legs, time_dependent_tolerance_exhausted
+            unreachable_checked, relations_checked, resources_checked, shift_latest_tight, open_tours, clustered_acts, recharge_acts, recharge_limit_tight, time_dependent_legs, time_dependent_tolerance_exhausted, reported_starts_judged
         );
     }
     pub fn to_json(&self) -> serde_json::Value {
@@ -69,7 +70,7 @@ impl Probes {
             tours, activities, multi_activity_stops, waiting_acts, tw_tight, cap_tight, dist_limit_tight,
             dur_limit_tight, size_limit_tight, reload_acts, break_acts, tours_too_ambiguous, multi_jobs_assigned, unassigned,
             skipped_time_replay, tags_checked, order_checked, groups_checked, compat_checked, skills_checked,
-            unreachable_checked, relations_checked, resources_checked, shift_latest_tight, open_tours, clustered_acts, recharge_acts, recharge_limit_tight, time_dependent_legs, time_dependent_tolerance_exhausted
+            unreachable_checked, relations_checked, resources_checked, shift_latest_tight, open_tours, clustered_acts, recharge_acts, recharge_limit_tight, time_dependent_legs, time_dependent_tolerance_exhausted, reported_starts_judged
         )
     }
 }
@@ -798,6 +799,16 @@ fn check_tour_inner(m: &PModel, ti: usize, t: &STour, assign: &BTreeMap<usize, u
                 }
             }
         }
+        if unsupported && !SPECIAL.contains(&a.job_id.as_str()) {
+            // tours whose times are not replayed (clustered stop, required break): the *reported* start of service must
+            // still lie before the end of a window of a place the activity can stand for
+            if let Some(rep) = rep_start {
+                probes.reported_starts_judged += 1;
+                if cands.iter().all(|c| c.tw.is_some_and(|w| rep as f64 > w.1 as f64 + tol)) {
+                    out.push(Issue { prop: F, rule: "tw-late", msg: format!("tour {ti} ({}): {} '{}' is reported to start at {rep}, after the end of every window of its places at this location", t.vehicle_id, a.kind, a.job_id), tag: if a.has_commute { "cluster-activity" } else { "reported-times" } });
+                }
+            }
+        }
         // C03: cumulative distance (exact integers)
         cum_dist += raw_dist;
         // recharge: the distance driven since the departure / the last recharge station stays within the limit
@@ -934,6 +945,14 @@ fn check_tour_inner(m: &PModel, ti: usize, t: &STour, assign: &BTreeMap<usize, u
         }
     }
 
+    if unsupported {
+        // reported end of the tour against the shift end
+        if let (Some((_, latest)), Some(last)) = (shift.end, t.stops.last()) {
+            if last.arrival as f64 > latest as f64 + tol && flat.last().is_some_and(|f| f.act.job_id == "arrival" || f.act.job_id == "break") {
+                out.push(Issue { prop: F, rule: "shift-end-late", msg: format!("tour {ti} ({}): reported arrival {} at the end of the tour after shift end {}", t.vehicle_id, last.arrival, latest), tag: "reported-times" });
+            }
+        }
+    }
     // ---- limits and statistic
     let total_duration = last_end - dep0 as f64;
     if shift.end.is_none() {
